@@ -150,3 +150,12 @@ package redis
 //@   ghost at after Randn#0: rid = ret
 //@   call Randn#0: assert arg_n == 16
 //@   ensures result != nil && result.id == rid && result.store == store && result.key == key
+
+// what the store's circuit breaker counts as a healthy outcome: success, a miss (redis.Nil) and a caller that cancelled -
+// a burst of cancelled callers must not open the breaker on a healthy store (the limiters would then fall back to their
+// local buckets and grant a fresh burst per instance)
+//@ func acceptable
+//@   property C03 C01
+//@   ensures implies(err == nil, result)
+//@   ensures implies(err != nil && errors.Is(err, red.Nil), result) && implies(err != nil && errors.Is(err, context.Canceled), result)
+//@   ensures implies(result && err != nil, errors.Is(err, red.Nil) || errors.Is(err, context.Canceled))
